@@ -665,9 +665,12 @@ pub fn run(cfg: EngineCfg, root: impl FnOnce() + Send + 'static) -> Report {
                 let cur = g.current;
                 let name = g.threads.get(cur).map(|t| t.name.clone()).unwrap_or_default();
                 eprintln!(
-                    "HARNESS-ERROR: wall-clock watchdog: run exceeded {:?}; current thread {:?} ({}), sim now {} ns, handoffs {}",
-                    limit, cur, name, g.now, g.handoffs
+                    "HARNESS-ERROR: wall-clock watchdog: run exceeded {:?}; current thread {:?} ({}), sim now {} ns, handoffs {}, shutdown {}",
+                    limit, cur, name, g.now, g.handoffs, g.shutdown
                 );
+                for (i, t) in g.threads.iter().enumerate() {
+                    eprintln!("  thread {} {:<14} {:?} reason={} wake_at={:?}", i, t.name, t.st, t.reason, t.wake_at);
+                }
                 std::process::exit(2);
             }
         }
